@@ -20,7 +20,7 @@ func Choice(parsers ...parsley.Parser) parser.Func {
 
 	return parser.Func(func(ctx *parsley.Context, leftRecCtx data.IntMap, pos parsley.Pos) (parsley.Node, data.IntSet, parsley.Error) {
 		cp := data.EmptyIntSet
-		var err parsley.Error
+		var err, notFoundErr parsley.Error
 		for _, p := range parsers {
 			ctx.RegisterCall()
 			node, cp2, err2 := p.Parse(ctx, leftRecCtx, pos)
@@ -29,6 +29,8 @@ func Choice(parsers ...parsley.Parser) parser.Func {
 			if err2 != nil && (err == nil || err2.Pos() >= err.Pos()) {
 				if err2.Pos() > pos || !parsley.IsNotFoundError(err2) {
 					err = err2
+				} else if notFoundErr == nil {
+					notFoundErr = err2
 				}
 			}
 			if node != nil {
@@ -37,6 +39,10 @@ func Choice(parsers ...parsley.Parser) parser.Func {
 			}
 		}
 
+		if err == nil {
+			// every alternative failed with a not-found error at the start position
+			err = notFoundErr
+		}
 		return nil, cp, err
 	})
 }
